@@ -21,20 +21,77 @@ type Universe struct {
 	Classes []felt.Felt
 }
 
-func newUniverse(g *lib.ChainGen) *Universe {
+// The address / slot tables of the two universes. "" = the universe of harness/lib's chain generator
+// (0x1, 0x2, two addresses sharing a 240-bit prefix, 0x104..0x107; slots 0, 2^250-1, 2, 3, 4).
+// "ff" = the byte-boundary universe (round 5): addresses and slots whose big-endian bytes END in 0xff
+// next to the address / slot right above them — what a key-range helper that mishandles a trailing
+// 0xff byte confuses: 0x1ff / 0x200 (one 0xff), 0xffff / 0x10000 (two), 2^250-1 / 2^250 (31 bytes 0xff
+// after 0x03: the longest carry a trie key of 251 bits allows); slots 0xff / 0x100 and 2^250-1 / 2^250.
+func universeTables(name string) (addrs, slots []felt.Felt) {
+	big := "0x7ffffffffffffffffffffffffffffffffffffffffffffffffffffffffff000"
+	if name == "ff" {
+		addrs = []felt.Felt{*lib.F(1), *lib.F(2),
+			*lib.FHex("0x3ffffffffffffffffffffffffffffffffffffffffffffffffffffffffffffff"),
+			*lib.FHex("0x400000000000000000000000000000000000000000000000000000000000000"),
+			*lib.F(0x1ff), *lib.F(0x200), *lib.F(0xffff), *lib.F(0x10000)}
+		slots = []felt.Felt{*lib.F(0), *lib.FHex("0x3ffffffffffffffffffffffffffffffffffffffffffffffffffffffffffffff"),
+			*lib.FHex("0x400000000000000000000000000000000000000000000000000000000000000"), *lib.F(0xff), *lib.F(0x100)}
+		// each pair is (x ending in 0xff bytes, x + 1)
+		one := lib.F(1)
+		for _, pr := range [][2]*felt.Felt{{&addrs[2], &addrs[3]}, {&addrs[4], &addrs[5]}, {&addrs[6], &addrs[7]}, {&slots[1], &slots[2]}, {&slots[3], &slots[4]}} {
+			if b := pr[0].Bytes(); b[31] != 0xff || !new(felt.Felt).Add(pr[0], one).Equal(pr[1]) {
+				panic("byte-boundary universe: not a (…ff, …ff + 1) pair: " + pr[0].String())
+			}
+		}
+		return addrs, slots
+	}
+	if name == "wide" {
+		// more contracts than the worker pools of State.commit / updateContractStorages have goroutines
+		// (runtime.GOMAXPROCS(0)); two slots each
+		addrs = []felt.Felt{*lib.F(1), *lib.F(2)}
+		for i := uint64(0); i < wideContracts; i++ {
+			addrs = append(addrs, *lib.F(0x300 + i))
+		}
+		return addrs, []felt.Felt{*lib.F(2), *lib.F(3)}
+	}
+	addrs = []felt.Felt{*lib.F(1), *lib.F(2), *lib.FHex(big + "1"), *lib.FHex(big + "2"), *lib.F(0x104), *lib.F(0x105), *lib.F(0x106), *lib.F(0x107)}
+	slots = []felt.Felt{*lib.F(0), *lib.FHex("0x3ffffffffffffffffffffffffffffffffffffffffffffffffffffffffffffff"), *lib.F(2), *lib.F(3), *lib.F(4)}
+	return addrs, slots
+}
+
+// wideContracts: ordinary contracts of the universe "wide" (above any GOMAXPROCS this runs under? no:
+// above 16, the usual one; the run records GOMAXPROCS in the distribution)
+const wideContracts = 40
+
+func universeOf(name string) *Universe {
+	initOnce()
 	u := &Universe{}
-	for i := 0; i < g.NAddrs(); i++ {
-		u.Addrs = append(u.Addrs, g.Addr(i))
-	}
+	u.Addrs, u.Slots = universeTables(name)
 	u.Addrs = append(u.Addrs, *lib.F(0x999)) // never deployed
-	for i := 0; i < g.Opt.NSlots; i++ {
-		u.Slots = append(u.Slots, g.Slot(i))
-	}
 	u.Classes = append(u.Classes, cairo0Fxs...)
 	for _, fx := range sierraFxs {
 		u.Classes = append(u.Classes, fx.hash)
 	}
 	u.Classes = append(u.Classes, *lib.F(0xDEAD)) // never declared
+	return u
+}
+
+// newUniverse: the universe of a history. The default one must be the chain generator's (its GenDiff
+// draws from it).
+func newUniverse(g *lib.ChainGen, name string) *Universe {
+	u := universeOf(name)
+	if name == "" {
+		for i := 0; i < g.NAddrs(); i++ {
+			if a := g.Addr(i); !a.Equal(&u.Addrs[i]) {
+				panic("harness/lib ChainGen.Addr and the universe table of cmd/c03 differ")
+			}
+		}
+		for i := 0; i < g.Opt.NSlots; i++ {
+			if k := g.Slot(i); !k.Equal(&u.Slots[i]) {
+				panic("harness/lib ChainGen.Slot and the universe table of cmd/c03 differ")
+			}
+		}
+	}
 	return u
 }
 
